@@ -7,10 +7,12 @@ bptk.run_scenarios cells in df/dict/json vs the model's zero-filled cells) + ind
 import contextlib, io, json, threading
 from common import *
 
-TYPES = ["a", "b"]
-STATES = ["active", "s1", "s2"]
-PROPS = ["x", "k", "nm", "y"]              # x,y Double  k Integer  nm String
-PTYPE = {"x": "Double", "k": "Integer", "nm": "String", "y": "Double"}
+# wave 7: names that contain the separator of the column keys (`state_property_aggregate`, `manager_scenario_agent_state…`) and a
+# property whose name ends in an aggregate word: nothing may take a key apart at "_"
+TYPES = ["a", "b_t"]
+STATES = ["active", "s_1", "s2"]
+PROPS = ["x", "k", "nm", "y_max"]              # x,y Double  k Integer  nm String
+PTYPE = {"x": "Double", "k": "Integer", "nm": "String", "y_max": "Double"}
 AGGS = ["total", "min", "max", "mean"]
 
 
@@ -182,14 +184,23 @@ def ref_cell(snap, ty, st, p=None, agg=None):
     if not vals:
         return 0
     if agg == "total":
-        return sum(vals)
+        return fsum_lr(vals)
     if agg == "min":
         return min(vals)
     if agg == "max":
         return max(vals)
     if len(vals) != len(ms):
         return None
-    return sum(vals) / len(ms)
+    return fsum_lr(vals) / len(ms)
+
+
+def fsum_lr(vals):
+    """the sum as a left-to-right float addition starting from 0 (Python's built-in sum() compensates since 3.12 and differs in the
+    last bit for values that are not dyadic; on dyadic values of moderate size — the bulk of the generated ones — both are the exact sum)"""
+    t = 0
+    for v in vals:
+        t = t + v
+    return t
 
 
 def check_statistics(m):
@@ -302,12 +313,41 @@ def probe_frames():
     return out
 
 
+def key_collision_evidence():
+    """names for which two different (state, property, aggregate) have the same key text: what the real get_df_for_agent returns"""
+    from BPTK_Py import Model, Agent, DataCollector, SimultaneousScheduler
+    from BPTK_Py.scenariorunners.hybrid_runner import HybridRunner
+    m = Model(name="k", scheduler=SimultaneousScheduler(), data_collector=DataCollector())
+    m.register_agent_factory("a", lambda i, mod, p: Agent(i, mod, p, "a"))
+    for st, xy, y in (("s1", 1.0, 10.0), ("s1_x", 2.0, 20.0)):
+        a = m.create_agent("a", {"x_y": {"type": "Double", "value": xy}, "y": {"type": "Double", "value": y}})
+        a.state = st
+    m.data_collector.collect_agent_statistics(1, m.agents)
+    df = HybridRunner(None).get_df_for_agent(m.data_collector.statistics(), "a", ["s1", "s1_x"], ["x_y", "y"], ["total"])
+    return {"states": ["s1", "s1_x"], "properties": ["x_y", "y"], "columns": list(df.columns),
+            "s1_x_y_total": float(df["s1_x_y_total"][1]), "total of x_y in s1": 1.0, "total of y in s1_x": 20.0,
+            "meaning": "outside the domain (keysDistinct = false, key_collision_witness): 3 columns for 4 cells, the later write wins"}
+
+
 def gen_lean_frames(frames):
     def i(v):
         return f"({v})" if v < 0 else str(v)
     def col(st, p, a):
         return f"⟨{st}, none⟩" if p is None else f"⟨{st}, some ({PROPS.index(p)}, .{a})⟩"
-    out = ["def selHist : History Int := histOf intOps [(1, probePop0), (2, probePop1), (3, probePop0)]"]
+    q = lambda xs: "[" + ", ".join('"%s"' % x for x in xs) + "]"
+    out = ["def selHist : History Int := histOf intOps [(1, probePop0), (2, probePop1), (3, probePop0)]",
+           f"def stateNames : List String := {q(STATES)}", f"def propNames : List String := {q(PROPS)}",
+           "/-- naming condition of the model's domain, for the names this run uses (they contain the separator `_`) -/",
+           "theorem keys_distinct : keysDistinct stateNames propNames = true := by decide", "#print axioms keys_distinct"]
+    keyrows = []
+    for f in frames:
+        for (st, p, a), present in f["present"]:
+            if present:
+                keyrows.append(f"({col(st, p, a)}, \"{STATES[st] + (f'_{p}_{a}' if p else '')}\")")
+    out += ["def realKeys : List (Col × String) := [" + ", ".join(keyrows) + "]",
+            "/-- the column names of the real frames are the model's key texts -/",
+            "theorem key_text_ok : realKeys.all (fun x => renderKey stateNames propNames x.1 == x.2) = true := by decide",
+            "#print axioms key_text_ok"]
     for n, f in enumerate(frames):
         sel = "⟨[%d], [%s], [%s], [%s]⟩" % (f["ag"], ", ".join(map(str, f["states"])), ", ".join(str(PROPS.index(p)) for p in f["props"]),
                                            ", ".join("." + a for a in f["aggs"]))
@@ -354,9 +394,14 @@ def gen_lean(rows, frames=()):
 # ------------------------------------------------------------------ generators
 def gen_value(rng, name):
     if PTYPE[name] == "Integer":
-        return rng.range(-20, 20)
+        return rng.range(-20, 20) if rng.below(16) else rng.choice([1, -1]) * (2 ** rng.range(30, 48) + rng.below(5))
     if PTYPE[name] == "String":
         return "s%d" % rng.below(3)
+    r = rng.below(16)
+    if r == 0:            # wave 7: many decimals (sums are inexact in binary: reference, model and code must do the same operations in the same order)
+        return rng.range(-99, 99) / 10.0 + rng.choice([0.0, 1 / 3, 1e-9])
+    if r == 1:            # large magnitudes
+        return rng.choice([1, -1]) * (2.0 ** rng.range(30, 50) + rng.range(0, 7) / 8.0)
     return rng.range(-64, 64) / 8.0
 
 
@@ -463,8 +508,8 @@ def gen_gap_case(rng):
 
 def gap_selection(rng, case):
     sel = gen_selection(rng, case)
-    if "a" not in sel["agents"]:
-        sel["agents"] = ["a"] + sel["agents"]
+    if TYPES[0] not in sel["agents"]:
+        sel["agents"] = [TYPES[0]] + sel["agents"]
     want = list(case["gap"]) if rng.chance(1, 2) else list(STATES)
     sel["states"] = rng.shuffle(sorted(set(sel["states"]) | set(want))) if rng.chance(1, 2) else want
     return sel
@@ -489,7 +534,7 @@ def gen_edge_case(rng, kind=None):
     (then values of one sign), a zero where the running max is 0, all values equal, one agent per (type, state),
     the same property Integer for one agent and Double for the next."""
     kind = kind or rng.choice(EDGE_KINDS)
-    tprops = {0: ["x", "k"], 1: ["x", "k", "y"]}
+    tprops = {0: ["x", "k"], 1: ["x", "k", "y_max"]}
     ty = rng.below(2)
     n = rng.range(2, 6)
     sign = rng.choice([1, -1])
@@ -515,7 +560,7 @@ def gen_edge_case(rng, kind=None):
                     ("k", k, "Integer") if rng.chance(1, 2) else ("k", k / 4.0, "Double")]
         else:
             vals = [("x", x), ("k", k)]
-        return (t, vals + ([("y", gen_value(rng, "y"))] if t == 1 else []))
+        return (t, vals + ([("y_max", gen_value(rng, "y_max"))] if t == 1 else []))
     pop = [mk(ty, xs[i], ks[i], i) for i in range(len(xs))]
     if kind == "one_per_state":
         pop = [mk(i % 2, xs[i % len(xs)], ks[i % len(ks)], i) for i in range(rng.range(2, 6))]
@@ -570,12 +615,39 @@ class Bptk:
             self.b.register_scenario_manager({nm: {"type": "abm", "model": m, "scenarios": scenarios}})
         return nm
 
-    def query(self, nm, sel, fmt, scenarios=("sc",)):
+    def query(self, nm, sel, fmt, scenarios=("sc",), managers=None):
+        """wave 7 parameter kinds: every third call passes states / properties / aggregate types as comma separated strings (bptk splits
+        them), every second call leaves `series_names` to its (mutable, shared) default"""
+        self.q = getattr(self, "q", 0) + 1
+        as_str = self.q % 3 == 0
+        lst = (lambda xs: ",".join(xs) if (as_str and xs) else list(xs))
+        kw = {} if self.q % 2 == 0 else {"series_names": {}}
+        self.kinds = getattr(self, "kinds", {"comma_strings": 0, "default_series_names": 0})
+        self.kinds["comma_strings"] += as_str
+        self.kinds["default_series_names"] += not kw
         with contextlib.redirect_stdout(self.buf):
-            return self.b.run_scenarios(scenarios=list(scenarios), scenario_managers=[nm], agents=list(sel["agents"]),
-                                        agent_states=list(sel["states"]), agent_properties=list(sel["props"]),
-                                        agent_property_types=list(sel["aggs"]), equations=[], series_names={},
-                                        progress_bar=False, return_format=fmt)
+            return self.b.run_scenarios(scenarios=list(scenarios), scenario_managers=list(managers or [nm]), agents=list(sel["agents"]),
+                                        agent_states=lst(sel["states"]), agent_properties=lst(sel["props"]),
+                                        agent_property_types=lst(sel["aggs"]), equations=[],
+                                        progress_bar=False, return_format=fmt, **kw)
+
+
+def scribble(res, fmt):
+    """wave 7: overwrite everything in a returned result (after it was read): results handed out earlier must not be what a later call
+    returns (no caching / aliasing of returned frames, series or dictionaries)"""
+    try:
+        if fmt == "df" and hasattr(res, "iloc"):
+            res.iloc[:, :] = -777.0
+        elif fmt == "dict" and isinstance(res, dict):
+            def walk(d):
+                for k, v in d.items():
+                    if isinstance(v, dict):
+                        walk(v)
+                    elif hasattr(v, "iloc"):
+                        v.iloc[:] = -777.0
+            walk(res)
+    except Exception:
+        pass
 
 
 def cells_of(res, fmt, nm, sel, times, sc="sc"):
@@ -620,10 +692,10 @@ def cells_of(res, fmt, nm, sel, times, sc="sc"):
 
 def gen_selection(rng, case):
     agents = [TYPES[i] for i in range(2) if rng.chance(2, 3)] or [TYPES[rng.below(2)]]
-    states = [s for s in STATES if rng.chance(2, 3)] or [STATES[rng.below(3)]]
+    states = rng.shuffle([s for s in STATES if rng.chance(2, 3)] or [STATES[rng.below(3)]])      # wave 7: any listing order
     common_num = [p for p in PROPS if PTYPE[p] != "String" and all(p in case["tprops"][str(TYPES.index(a))] for a in agents)]
     if common_num and rng.chance(2, 3):
-        props = [p for p in common_num if rng.chance(2, 3)] or [rng.choice(common_num)]
+        props = rng.shuffle([p for p in common_num if rng.chance(2, 3)] or [rng.choice(common_num)])
         aggs = rng.shuffle([a for a in AGGS if rng.chance(2, 3)] or [rng.choice(AGGS)])
     else:
         props, aggs = [], []
@@ -652,6 +724,7 @@ def bptk_check(bp, case, sels, req, real_lines, fmts=("df", "dict", "json")):
             if not times:
                 continue
             cells = cells_of(res, fmt, nm, sel, times)
+            scribble(res, fmt)
             per_fmt[fmt] = cells
             for (ag, st, p, agg, t), v in cells.items():
                 want = ref_cell(snaps[t], TYPES.index(ag), STATES.index(st), p, agg)
@@ -775,6 +848,41 @@ def two_scenario_check(bp, case, second, sel, req, real_lines):
                     first = ("run_scenarios-cell", f"run_scenarios(scenarios=['sc','sc2'], agents={sel['agents']}, ..., return_format={fmt!r}) reports "
                              f"{what} = {v!r} for scenario {sc}, {ag}/{st} at t={t}, the population gives {want!r}",
                              {"case": case, "second": second, "selection": sel, "format": fmt})
+            emit_run_reads(req, real_lines, fmt, sel, cells)
+    return first
+
+
+def two_manager_check(bp, case, second, sel, req, real_lines):
+    """wave 7: two scenario managers (each with its scenario `sc`, own population and stop time) in ONE run_scenarios call; every
+    selected cell of either manager, at every time recorded for it, in df, dict and json. Returns None or (key, text, replay)."""
+    n1, n2 = bp.register(case), bp.register(second)
+    first = None
+    results = {}
+    for fmt in ("df", "dict", "json"):
+        try:
+            results[fmt] = bp.query(n1, sel, fmt, managers=[n1, n2])
+        except Exception as e:
+            return ("run_scenarios-raises", f"run_scenarios(scenario_managers=[m1, m2], agents={sel['agents']}, ..., return_format={fmt!r}) raises "
+                    f"{type(e).__name__}: {e}", {"case": case, "second_manager": second, "selection": sel, "format": fmt})
+    for which, nm in (("first", n1), ("second", n2)):
+        with contextlib.redirect_stdout(bp.buf):
+            snaps = bp.b.get_scenario(nm, "sc")._snaps
+        times = sorted(snaps)
+        if not times:
+            continue
+        req.append("hclear"); real_lines.append("ok")
+        for t in times:
+            req.append(f"hadd {int(t)} {enc_pop(snaps[t])}"); real_lines.append("ok")
+        for fmt in ("df", "dict", "json"):
+            cells = cells_of(results[fmt], fmt, nm, sel, times)
+            for (ag, st, p, agg, t), v in cells.items():
+                want = ref_cell(snaps[t], TYPES.index(ag), STATES.index(st), p, agg)
+                if want is not None and v != float(want) and first is None:
+                    what = f"{agg} of {p}" if p else "count"
+                    first = ("two-managers-df-rows-lost" if fmt == "df" else "run_scenarios-cell",
+                             f"run_scenarios(scenario_managers=[m1, m2], ..., return_format={fmt!r}) reports {what} = {v!r} for the {which} manager, "
+                             f"{ag}/{st} at t={t}, the population gives {want!r} (stop times {case['stop']} and {second['stop']})",
+                             {"case": case, "second_manager": second, "selection": sel, "format": fmt})
             emit_run_reads(req, real_lines, fmt, sel, cells)
     return first
 
@@ -905,6 +1013,10 @@ def run(chk):
     frames = probe_frames()
     chk.notes["probe_frames"] = [{"agent": TYPES[f["ag"]], "states": f["states"], "props": f["props"], "aggs": f["aggs"],
                                   "cells": len(f["cells"]), "rows_at": [t for t, b in f["index"] if b]} for f in frames]
+    try:
+        chk.notes["column_key_collision"] = key_collision_evidence()
+    except Exception as e:
+        chk.notes["column_key_collision"] = f"probe raised {type(e).__name__}: {e}"
     ok, why = chk.prove(gen_lean(rows, frames))
     chk.cov["trusted_base"] = [
         "Lean 4.33 kernel; axioms propext, Classical.choice, Quot.sound (audited per run via #print axioms)",
@@ -973,7 +1085,7 @@ def run(chk):
                         dist["all_equal_groups"] += len(vals) > 1 and len(set(vals)) == 1
                         if vals and len(vals) != len(ms):
                             dist["inhomogeneous_groups"] += 1
-                        if len(vals) == len(ms) and len(ms) > 1 and len({sum(vals), min(vals), max(vals), sum(vals) / len(vals)}) == 4:
+                        if len(vals) == len(ms) and len(ms) > 1 and len({fsum_lr(vals), min(vals), max(vals), fsum_lr(vals) / len(vals)}) == 4:
                             dist["groups_with_4_distinct_numbers"] += 1
                             nontriv = True
         dist["cases"] += 1
@@ -998,12 +1110,12 @@ def run(chk):
     # ---- (B) through bptk.run_scenarios, three formats, generated selections
     nb = 24 if chk.quick else 300
     bdist = {"scenarios": 0, "selections": 0, "count_mode": 0, "property_mode": 0, "sessions": 0, "session_steps": 0,
-             "gap_scenarios": 0, "flux_scenarios": 0, "multi_type_selections": 0, "two_scenario_calls": 0, "inner_gaps_state_time": 0, "times_all_selected_states_empty": 0}
+             "gap_scenarios": 0, "flux_scenarios": 0, "multi_type_selections": 0, "two_scenario_calls": 0, "two_manager_calls": 0, "inner_gaps_state_time": 0, "times_all_selected_states_empty": 0}
     with Bptk() as bp:
         for bi in range(nb):
             if bi % 4 == 3:          # wave 6: types appearing / disappearing, both types requested, both listing orders
                 case = gen_flux_case(rng)
-                sels = [dict(gen_selection(rng, case), agents=rng.shuffle(["a", "b"])) for _ in range(2)]
+                sels = [dict(gen_selection(rng, case), agents=rng.shuffle(list(TYPES))) for _ in range(2)]
                 bdist["flux_scenarios"] += 1
             elif bi % 2 == 1:          # wave 4: states that empty at an interior recorded time and are occupied again later
                 case = gen_gap_case(rng)
@@ -1033,6 +1145,11 @@ def run(chk):
                     v3 = two_scenario_check(bp, case, second, msel, req, real_lines)
                     bdist["two_scenario_calls"] += 1
                     v2 = v2 or v3
+                    # wave 7: the same pair as two scenario managers in one call, longer and shorter one first
+                    pair = (case, second) if bi % 8 < 4 else (second, case)
+                    v4 = two_manager_check(bp, dict(pair[0], script={}, mid={}), pair[1], msel, req, real_lines)
+                    bdist["two_manager_calls"] += 1
+                    v2 = v2 or v4
             bdist["sessions"] += 1
             bdist["session_steps"] += nsteps
             owner += [("bptk", case, sels)] * (len(req) - n0)
@@ -1050,6 +1167,7 @@ def run(chk):
             chk.case(("bptk", json.dumps(case, sort_keys=True), json.dumps(sels)), nontrivial=True)
             if (v or v2) and first is None:
                 first = v or v2
+    bdist["parameter_kinds"] = getattr(bp, "kinds", {})
     dist.update(bdist)
     chk.cov["input_distribution"] = dist
     chk.cov["rule"] = ("wave 4: + every second bptk scenario lets agents switch back and forth between states so that a selected state is occupied, "
@@ -1085,7 +1203,7 @@ def run(chk):
             small = shrink_stat_case(rp["case"])
             m = new_model(small); m.run()
             text, rp = check_statistics(m) or text, {"case": small}
-        elif "selection" in rp and rp.get("second") is None:
+        elif "selection" in rp and rp.get("second") is None and rp.get("second_manager") is None:
             try:
                 sm = shrink_bptk(key, rp)
             except Exception:
@@ -1117,7 +1235,9 @@ def replay(path):
         return 1
     if "selection" in r:
         with Bptk() as bp:
-            if r.get("second") is not None:
+            if r.get("second_manager") is not None:
+                v = two_manager_check(bp, case, r["second_manager"], r["selection"], [], [])
+            elif r.get("second") is not None:
                 v = two_scenario_check(bp, case, r["second"], r["selection"], [], [])
             elif r.get("format") == "session":
                 v = session_check(bp, case, r["selection"], [], [])[1]
